@@ -85,7 +85,9 @@ def determinism(ctx, W, layer):
     import numba
 
     have_chunk = hasattr(numba, "set_parallel_chunksize")
-    threads = [1, 2, 7, 16]
+    threads = [1, 2, 7, 16]   # the property's counts; on a machine with fewer threads the available odd / even counts instead
+    if numba.config.NUMBA_NUM_THREADS < 7:
+        threads = sorted(set(threads) | {3, numba.config.NUMBA_NUM_THREADS})
     chunks = [0, 1, 3] if have_chunk else [0]
     reps = 2 if ctx.quick else 5
     schedules = set()
